@@ -18,7 +18,7 @@ pub fn def() -> CheckDef {
             real: super::REAL_COMPONENTS,
             stub: super::STUB_COMPONENTS,
         },
-        runs: |t| if t.thorough() { 30_000 } else { 1_500 },
+        runs: |t| if t.thorough() { 300_000 } else { 15_000 },
         run,
         execute: |sc, acc| run_history(sc, acc, Mode::Conformance),
         expected_probes: &["interrupted_backup", "delete_real", "combined_block", "multi_block_file", "headless_newest_band"],
